@@ -449,3 +449,12 @@ func VerifC07_EncodeAnyLengths() {
 //
 //verif:reach decoded
 func VerifC07_RewrittenLengthsKeepTheStreamFramed() { VerifC10_RewriterLengths() }
+
+// VerifC01_SerializedLengthsStayFramed: the serializer-length run read for C01
+// ("never lost or altered"): a field value of a length at the header-width
+// boundaries (15/16, 255/256, 65535/65536) keeps its bytes and does not
+// mis-frame the records packed behind it in the chunk.
+//
+//verif:reach decoded
+//verif:paths 60000
+func VerifC01_SerializedLengthsStayFramed() { VerifC10_DecodeLengths9() }
